@@ -2,7 +2,29 @@
 
 package internal
 
-func init() { verifRegister("VerifC06x_f02", VerifC06x_f02) }
+func init() {
+	verifRegister("VerifC06x_f02", VerifC06x_f02)
+	verifRegister("VerifC06x_f02chain", VerifC06x_f02chain)
+}
+
+// nested field masks (f02.chain f0:# f1:f0.0?# f2:f1.1?# t1:f0.0?%True t2:f1.1?%True t3:f2.2?%True): a present field implies its bit
+// in its own mask AND, transitively, the bits that make each enclosing mask present (different bit numbers at every level)
+func VerifC06x_f02chain() {
+	u := verifU32()
+	verifAssume(u < 1000)
+	N := verifU32JSON(u)
+	N4 := verifU32JSON(u | 4)
+	tl2 := verifDesc_F02Chain.hasTL2 // generated with TL2 the true-typed fields are independent bits: compare through TL1 only
+	cases := []verifAltCase{
+		{name: "nested-mask-implied-by-true-field", alt: `{"t2":true}`, canon: `{"f0":1,"f1":2,"t2":true}`, tl1Only: tl2},
+		{name: "nested-mask-implied-by-mask-field", alt: `{"f2":` + N + `}`, canon: `{"f0":1,"f1":2,"f2":` + N + `}`, tl1Only: tl2},
+		{name: "three-levels-implied-by-true-field", alt: `{"t3":true}`, canon: `{"f0":1,"f1":2,"f2":4,"t3":true}`, tl1Only: tl2},
+		{name: "three-levels-with-explicit-innermost", alt: `{"f2":` + N4 + `,"t3":true}`, canon: `{"f0":1,"f1":2,"f2":` + N4 + `,"t3":true}`, tl1Only: tl2},
+		{name: "first-level-implied-by-mask-field", alt: `{"f1":` + N + `}`, canon: `{"f0":1,"f1":` + N + `}`, tl1Only: tl2},
+	}
+	c := cases[verifChoice(len(cases))]
+	verifRunAlt(func() interface{} { return &F02Chain{} }, c)
+}
 
 // local field masks: a present masked field implies its bit; true-typed fields as booleans
 func VerifC06x_f02() {
